@@ -125,6 +125,11 @@ def run(ctx):
                 k += 1
                 if k % ctx.nshards == ctx.shard:
                     check(ctx, a, b, ts, 'scratch-matrix')
+                    if k % 5 == 0 and '\n' in b[:-1]:
+                        # the second half may use another line-ending convention than the first (CR LF, CR): each line is
+                        # converted on its own, whatever the document's first line looked like
+                        check(ctx, a, b.replace('\n', '\r\n'), ts, 'scratch-matrix-crlf', sep='\n')
+                        check(ctx, a, b.replace('\n', '\r'), ts, 'scratch-matrix-cr', sep='\n')
     for k in range(sz['pairs'] // ctx.nshards):
         if ctx.out_of_time():
             break
